@@ -33,7 +33,9 @@ func runC18(c *Ctx) {
 	c.Rule("C18.L", "liveness gate", 11)
 	c.Rule("C18.F", "shared fallback only when the user has no match", 3)
 	c.Rule("C18.N", "lookup by the request path; 404 when it fails", 2)
-	c.Rule("C18.S", "shape of the most-specific-prefix selection", 7)
+	c.Rule("C18.S", "shape of the most-specific-prefix selection", 9)
+	ruleBackendDefinitionsVerbatim(c, p, "C18.S")
+	ruleBackendQueriesUnbounded(c, p, "C18.S")
 	c.Rule("C18.C", "no cache or memo in front of the routing decision", 2)
 	const sp = ModPath + "/app/store"
 	hb := "(*" + sp + ".persistentStore).hasBackend"
@@ -576,4 +578,71 @@ func sentinelError(p *Prog, g *ssa.Global) bool {
 		})
 	}
 	return ok && n == 1
+}
+
+// ruleBackendDefinitionsVerbatim: routing compares identities and prefixes as they were
+// registered. No code rewrites the identity fields of a backend definition (a normalisation
+// that lower-cases e-mail addresses also turns the sentinel "allUsers" into a value the
+// shared-backend query never matches).
+func ruleBackendDefinitionsVerbatim(c *Ctx, p *Prog, rule string) {
+	bad := ""
+	n := 0
+	for _, pkg := range []string{"app", "app/store", "app/cache"} {
+		for _, fn := range p.AllFuncsIn(pkg) {
+			EachInstrRaw(fn, func(i ssa.Instruction) {
+				st, ok := i.(*ssa.Store)
+				if !ok {
+					return
+				}
+				base, fld, ok := FieldAddrOf(st.Addr)
+				if !ok || NamedTypeRel(base.Type()) != "app/types.Backend" {
+					return
+				}
+				n++
+				switch fld {
+				case "EndUser", "BackendUser", "BackendID", "PathPrefixes":
+					bad = "field " + fld + " is rewritten in " + FuncName(fn) + " at " + p.Pos(st.Pos())
+				}
+			})
+		}
+	}
+	c.Check(rule, "definitions:identity-fields-stored-as-registered", p, 0, bad == "", fmt.Sprintf("%d stores into backend definitions: none rewrites EndUser, BackendUser, BackendID or PathPrefixes", n), "a backend definition's "+bad+": the value routing compares is no longer the one registered (lower-casing turns the sentinel allUsers into a value the shared-backend query never matches, so users without a backend of their own get 404 although a live shared backend exists)")
+}
+
+// ruleBackendQueriesUnbounded: the queries that list candidate backends for a lookup are not
+// cut short (Limit/Offset/cursor): the most specific prefix can belong to any of them.
+func ruleBackendQueriesUnbounded(c *Ctx, p *Prog, rule string) {
+	tops := map[string]bool{"app/store.(*persistentStore).LookupBackend": true, "app/store.(*persistentStore).lookupSharedBackend": true}
+	bad := ""
+	nq := 0
+	for _, fn := range p.AllFuncsIn("app/store") {
+		top := TopFunc(fn)
+		inLookup := tops[FuncName(fn)] || tops[FuncName(top)]
+		if !inLookup && IsNewHelper(fn) {
+			for t := range tops {
+				if tf := p.Func(t); tf != nil && helperCalledFrom(fn, tf) {
+					inLookup = true
+				}
+			}
+		}
+		if !inLookup {
+			continue
+		}
+		EachInstrRaw(fn, func(i ssa.Instruction) {
+			cc := CallOf(i)
+			if cc == nil {
+				return
+			}
+			n := CalleeName(cc)
+			if !strings.HasPrefix(n, "(*google.golang.org/appengine/v2/datastore.Query).") {
+				return
+			}
+			nq++
+			switch strings.TrimPrefix(n, "(*google.golang.org/appengine/v2/datastore.Query).") {
+			case "Limit", "Offset", "Start", "End":
+				bad = n[strings.LastIndex(n, ".")+1:] + " in " + FuncName(fn) + " at " + p.Pos(i.Pos())
+			}
+		})
+	}
+	c.Check(rule, "selection:candidate-queries-are-complete", p, 0, bad == "" && nq >= 2, fmt.Sprintf("%d query calls in the two lookups: no Limit/Offset/cursor", nq), "the candidate query of a backend lookup is cut short ("+bad+"): the backend with the most specific prefix may be beyond the cut, so the request goes to a less specific backend, to a shared one although the user has a match, or gets 404")
 }
